@@ -1,12 +1,20 @@
 (* C10 -- the two repaired variants of _VersionConverter.visit_model (proposed_fixes/ready/C10_01, C10_02):
      own    : the nodes of a function are read at the opset the FUNCTION imports (falling back to the model's);
               all imports are read before anything is modified;
-     minchk : before anything is modified, a default-domain node whose version lies below SUPPORTED_MIN_ONNX_OPSET makes
-              the converter raise VersionConverterError (no adapters exist there; C10_03);
+     minchk : the below-minimum pre-check, three variants (minvar):
+              MinOff  -- none (the code before a75b415);
+              MinNode -- /repo a75b415: before anything is modified, a default-domain node whose VERSION (node.version or
+                         the container's import) lies below SUPPORTED_MIN_ONNX_OPSET makes the converter raise
+                         VersionConverterError.  Wrong for exporter output: torch.onnx.export(dynamo=True) stamps nodes with
+                         the since-version of their schema (e.g. 13) inside a model importing 18 (UnsupportedProofs.
+                         node_version_check_refuted);
+              MinDecl -- /repo 78f42e9 (the code as it stands): the refusal reads only the opset the CONTAINER (model or
+                         function) imports; raised at the first default-domain node met (recursively) iff that import
+                         is below the minimum; node.version plays no role;
      refuse : before anything is modified, every node (recursively) is checked for a conversion no adapter can
               complete -- QuantizeLinear below 19 with an int32 x and a non-int32 y_scale going to 19..22 -- and
               VersionConverterError is raised.
-   own = refuse = minchk = false is Model.convert_native (Model2Proofs.native2_off).  No proofs in this file. *)
+   own = refuse = false, minchk = MinOff is Model.convert_native (Model2Proofs.native2_off).  No proofs in this file. *)
 From Coq Require Import ZArith List Bool String.
 Import ListNotations.
 Require Import OV.Version.Model.
@@ -39,7 +47,7 @@ Fixpoint refuses (t : Z) (dv : option Z) (n : node) : bool :=
     || existsb (refuses t dv) sb
   end.
 
-(* repaired variant C10_03: a default-domain node (recursively) whose version is below the supported minimum *)
+(* variant a75b415 (MinNode): a default-domain node (recursively) whose version is below the supported minimum *)
 Fixpoint below_min (smin : Z) (dv : option Z) (n : node) : bool :=
   match n with
   | Node _ d v _ _ _ _ sb =>
@@ -47,8 +55,20 @@ Fixpoint below_min (smin : Z) (dv : option Z) (n : node) : bool :=
     || existsb (below_min smin dv) sb
   end.
 
+(* variant 78f42e9 (MinDecl): _check_convertible walks ir.traversal.RecursiveGraphIterator (every node, subgraphs of every
+   node entered) and raises at the first default-domain node iff the container's import dv is below the minimum *)
+Fixpoint has_dflt (n : node) : bool :=
+  match n with Node _ d _ _ _ _ _ sb => d || existsb has_dflt sb end.
+Definition below_min_decl (smin : Z) (dv : option Z) (n : node) : bool :=
+  match dv with Some v => (v <? smin) && has_dflt n | None => false end.
+
+Inductive minvar := MinOff | MinNode | MinDecl.
+Definition min_refuses (mv : minvar) (smin : Z) (dv : option Z) (n : node) : bool :=
+  match mv with MinOff => false | MinNode => below_min smin dv n | MinDecl => below_min_decl smin dv n end.
+
 Section Native2.
-  Variables own refuse minchk : bool.
+  Variables own refuse : bool.
+  Variable minchk : minvar.
   Variable adapt : adapter.
   Variables smin smax : Z.
   Variable fuel : nat.
@@ -86,8 +106,8 @@ Section Native2.
         | Some fvs =>
           if (refuse && (existsb (refuses t dv) (m_graph M)
                          || existsb (fun p => existsb (refuses t (snd p)) (f_nodes (fst p))) fvs))
-             || (minchk && (existsb (below_min smin dv) (m_graph M)
-                            || existsb (fun p => existsb (below_min smin (snd p)) (f_nodes (fst p))) fvs))
+             || (existsb (min_refuses minchk smin dv) (m_graph M)
+                 || existsb (fun p => existsb (min_refuses minchk smin (snd p)) (f_nodes (fst p))) fvs)
           then MRaised ERefused M []
           else
             match conv adapt t dv fuel (m_graph M) with
